@@ -41,6 +41,9 @@ class Construction:
       except:
         break
       first_tag = i
+    # the tags have been found scanning from the last field backwards:
+    # keep them in the order of the line
+    self._data = dict(reversed(list(self._data.items())))
     self._delayed_initialize_positional_fields(strings, first_tag)
 
   def _delayed_initialize_positional_fields(self, strings, n_positional_fields):
